@@ -895,6 +895,9 @@ impl World {
     /// treats that as a violation; a dead connection kept for late answers produces it
     /// legitimately.
     pub fn settle(&mut self, budget: usize, stop_on_err: bool) -> (usize, bool) {
+        // a caller's budget is a convenience, never a promise about how few polls a correct server
+        // needs: one unit of progress per poll is all that may be assumed
+        let budget = budget.max(self.progress_bound());
         let mut used = 0;
         self.note("settle {".into());
         let mut idle = 0;
